@@ -322,8 +322,14 @@ func childMain(hot, cold, meta, planPath, trace, action string) {
 					p = f.Path
 				}
 			}
+			db.Exec(`CREATE TABLE IF NOT EXISTS verif_calls (f INTEGER)`)
+			db.Exec(`DELETE FROM verif_calls`)
+			// fails exactly the n-th UpdateTier(cold) of this file in this process (RAISE(FAIL) keeps the counter row)
 			q := fmt.Sprintf(`CREATE TRIGGER IF NOT EXISTS verif_fail_%d BEFORE UPDATE OF tier ON tier_files
-				WHEN NEW.tier = 'cold' AND NEW.path = '%s' BEGIN SELECT RAISE(FAIL, 'verif: injected metadata fault'); END`, r.File, p)
+				WHEN NEW.tier = 'cold' AND NEW.path = '%s' BEGIN
+				INSERT INTO verif_calls VALUES (%d);
+				SELECT RAISE(FAIL, 'verif: injected metadata fault') WHERE (SELECT count(*) FROM verif_calls WHERE f = %d) = %d; END`,
+				r.File, p, r.File, r.File, r.Nth)
 			if _, err := db.Exec(q); err != nil {
 				fmt.Fprintln(os.Stderr, "trigger:", err)
 				os.Exit(3)
@@ -374,6 +380,8 @@ func childMain(hot, cold, meta, planPath, trace, action string) {
 				}
 			}
 		}
+	case "overlap":
+		errs = m.VerifOverlappedCycle(ctx)
 	case "reconcile":
 		_, _, e := m.VerifReconcile(ctx)
 		errs = e
